@@ -44,9 +44,10 @@ pub fn kind_of(r: &Rec) -> Kind {
 }
 
 #[derive(Clone, Copy, PartialEq, Eq, Debug)]
-pub enum Expect { None, Right, Wrong }
+pub enum Expect { None, Right, Wrong, Truncated(usize), WrongPrefix }
 impl Expect {
-    pub fn code(self) -> i128 { match self { Expect::None => 0, Expect::Right => 1, Expect::Wrong => 2 } }
+    /// model code: 0 none, 1 the peer's digest, >= 2 some other value (a strict prefix of the digest is another value)
+    pub fn code(self) -> i128 { match self { Expect::None => 0, Expect::Right => 1, Expect::Wrong => 2, Expect::Truncated(_) => 3, Expect::WrongPrefix => 4 } }
 }
 
 #[derive(Clone, Debug, PartialEq)]
@@ -545,8 +546,13 @@ pub async fn run_script(script: Script) -> Outcome {
     let wrong = "00:11:22:33:44:55:66:77:88:99:AA:BB:CC:DD:EE:FF:00:11:22:33:44:55:66:77:88:99:AA:BB:CC:DD:EE:FF".to_string();
     let fp_s = fingerprint(&cert_s);
     let fp_c = fingerprint(&cert_c);
-    let exp_c = match script.cexp { Expect::None => None, Expect::Right => Some(fp_s.clone()), Expect::Wrong => Some(wrong.clone()) };
-    let exp_s = match script.sexp { Expect::None => None, Expect::Right => Some(fp_c.clone()), Expect::Wrong => Some(wrong.clone()) };
+    let pick = |e: Expect, right: &String| -> Option<String> { match e {
+        Expect::None => None, Expect::Right => Some(right.clone()), Expect::Wrong => Some(wrong.clone()),
+        Expect::Truncated(n) => Some(right[..n.min(right.len())].to_string()),
+        Expect::WrongPrefix => Some(if right.starts_with("00") { "11".to_string() } else { "00".to_string() }),
+    } };
+    let exp_c = pick(script.cexp, &fp_s);
+    let exp_s = pick(script.sexp, &fp_c);
     let (server, mut srx, srun) = DtlsTransport::new(ep_b.conn.clone(), cert_s.clone(), false, 1500, exp_s.clone()).await.unwrap();
     let srun = tokio::spawn(srun);
     let (client, mut crx, crun) = DtlsTransport::new(ep_a.conn.clone(), cert_c.clone(), true, 1500, exp_c.clone()).await.unwrap();
